@@ -351,9 +351,14 @@ func main() {
 	replay := flag.String("replay", "", "replay file (JSON with an 'input' field)")
 	child := flag.String("child", "", "(internal) run as child on this inputs file")
 	childWire := flag.Bool("childwire", false, "(internal) child runs the wire.ClientConn scenario")
+	childFlood := flag.String("childflood", "", "(internal) run the frame-flood scenarios of this file")
 	from := flag.Int("from", 0, "(internal)")
 	to := flag.Int("to", 0, "(internal)")
 	flag.Parse()
+	if *childFlood != "" {
+		childFloodMain(*childFlood)
+		return
+	}
 	if *child != "" {
 		if *childWire {
 			childWireMain(*child, *from, *to)
@@ -386,6 +391,15 @@ func main() {
 		if err := json.Unmarshal(b, &rf); err != nil {
 			fmt.Fprintln(os.Stderr, err)
 			os.Exit(2)
+		}
+		if rf.Input.Flood != nil {
+			v := runFloods(self, *outDir, []floodIn{*rf.Input.Flood})
+			w.Add(floodCase(rf.Input.Flood, v[0]))
+			if err := w.Flush(*seed, *tier, "replay of one recorded case", false, nil); err != nil {
+				fmt.Fprintln(os.Stderr, err)
+				os.Exit(2)
+			}
+			return
 		}
 		rf.Input.Kind = "replay"
 		ins := []input{rf.Input}
@@ -521,14 +535,28 @@ func main() {
 		}
 		w.Add(c)
 	}
+	// frame floods on a real wire.ClientConn with subscriptions that nobody drains (both tiers)
+	floods := floodScenarios(*seed, thorough)
+	tf := time.Now()
+	fv := runFloods(self, *outDir, floods)
+	nFloodOK := 0
+	for i := range floods {
+		c := floodCase(&floods[i], fv[i])
+		if c.Direct == "" {
+			nFloodOK++
+		}
+		w.Count("flood:" + floods[i].Frames)
+		w.Add(c)
+	}
 	extra := map[string]interface{}{
+		"flood_scenarios": len(floods), "flood_scenarios_ok": nFloodOK, "flood_seconds": time.Since(tf).Seconds(),
 		"corpus_seeds": len(seeds), "full_seeds": len(full),
 		"nil_positions_outcomes": nilTable, "nil_positions_type_level": len(tp), "nil_positions_exercised": len(tp) - len(uncovered), "nil_positions_not_exercised": uncovered,
 		"inputs_accepted_by_parser": nParsed, "inputs_decoded_to_a_message": nDecoded,
 		"judged_by_harness_only_too_large": nBig, "child_run_seconds": tRun.Seconds(),
 		"wire_client_conn_runs": wireOcs != nil,
 	}
-	rule := "inputs = regression corpus + handwritten hostile inputs + valid encodings of every message type (zero, random, full; both encodings) + nil at every repeated/map position of every message type + JSON null at every object/array position + structure-aware corruption (proto struct: wrong-length uuids, out-of-table enum numbers, absent oneofs, nil sub-messages, nil list elements, nil map values, invalid UTF-8; protobuf wire format: truncation, huge/off lengths, deleted/duplicated/unknown fields, wire types, extreme varints; JSON tree: nulls, type confusion, deleted/added keys, extreme numbers, bad base64/enum names, second oneof) + blind byte mutation; each with a MaxMessageSize around its length. non-trivial = judged by Coq (structure small enough); distinct = distinct Coq case terms"
+	rule := "inputs = regression corpus + handwritten hostile inputs + valid encodings of every message type (zero, random, full; both encodings) + nil at every repeated/map position of every message type + JSON null at every object/array position + structure-aware corruption (proto struct: wrong-length uuids, out-of-table enum numbers, absent oneofs, nil sub-messages, nil list elements, nil map values, invalid UTF-8; protobuf wire format: truncation, huge/off lengths, deleted/duplicated/unknown fields, wire types, extreme varints; JSON tree: nulls, type confusion, deleted/added keys, extreme numbers, bad base64/enum names, second oneof) + blind byte mutation; each with a MaxMessageSize around its length; plus frame floods (9/1030/1100/2200 valid frames of one kind - downstream chunks, metadata, upstream chunk acks, downstream calls, pings - for a subscribed alias that nobody drains, mixed with hostile decodable frames) on a real wire.ClientConn, after which a broker ping must be answered and a later request must get its response (judged by the harness: Direct). non-trivial = judged by Coq (structure small enough); distinct = distinct Coq case terms"
 	if err := w.Flush(*seed, *tier, rule, false, extra); err != nil {
 		fmt.Fprintln(os.Stderr, err)
 		os.Exit(2)
